@@ -1479,8 +1479,9 @@ chkpnt1(uid_t u)
 	if (UNLIKELY(!inittedp)) {
 		echs_icalify_init(fd, (echs_instruc_t){INSVERB_UNK});
 	}
-	echs_icalify_fini(fd);
-	if (close(fd) < 0 || renameat(qdirfd, fn, qdirfd, fn + 1) < 0) {
+	/* only a completely written file may replace the live one */
+	if ((echs_icalify_fini(fd) < 0) | (close(fd) < 0) ||
+	    renameat(qdirfd, fn, qdirfd, fn + 1) < 0) {
 		int x = errno;
 		(void)unlinkat(qdirfd, fn, 0);
 		errno = x;
@@ -1504,6 +1505,7 @@ chkpnta(void)
 	ndnd_t *snds;
 	size_t nsnds = 0UL;
 	size_t zsnds = countof(chkpnts);
+	bool wrerrp = false;
 	int rc = 0;
 
 	if (UNLIKELY((snds = malloc(zsnds * sizeof(*snds))) == NULL)) {
@@ -1583,13 +1585,18 @@ chkpnta(void)
 			}
 			break;
 		}
-		echs_icalify_fini(fd);
 		if (snprintf(fn, sizeof(fn), ".echsq_%u.ics", u) < 0) {
 			/* oh fuck, there's really nothing we can do */
+			(void)echs_icalify_fini(fd);
 			rc = -1;
 			continue;
 		}
-		if (close(fd) < 0 || renameat(qdirfd, fn, qdirfd, fn + 1) < 0) {
+		/* only a completely written file may replace the live one
+		 * the files are written in turns, a write error cannot be
+		 * pinned on one of them and taints all that are not done */
+		wrerrp |= echs_icalify_fini(fd) < 0;
+		if ((close(fd) < 0) | wrerrp ||
+		    renameat(qdirfd, fn, qdirfd, fn + 1) < 0) {
 			ECHS_ERR_LOG("\
 cannot checkpoint user %u's queue", u);
 			(void)unlinkat(qdirfd, fn, 0);
